@@ -46,24 +46,46 @@ def bound(tier, q, t):
     return q if tier == "quick" else t
 
 
+def long_names(tier):
+    """names with many accidentals: homogeneous runs up to 40 (thorough 120) and a few mixed long ones"""
+    top = 40 if tier == "quick" else 120
+    out = []
+    for l in LETTERS:
+        for k in list(range(7, 27)) + [30, 36, top]:
+            out.append(l + "#" * k)
+            out.append(l + "b" * k)
+        out.append(l + "#b" * 9)
+        out.append(l + "b" * 14 + "#" * 3)
+        out.append(l + "#" * 25 + "b" * 2)
+    return out
+
+
 @battery("names")
 def b_names(tier, rnd):
     n = bound(tier, 6, 9)
-    return {"rule": "7 letters x every '#'/'b' string of length <= %d (all orderings)" % n,
-            "exhaustive_upto": n, "cases": [(x,) for x in all_names(n)]}
+    return {"rule": "7 letters x every '#'/'b' string of length <= %d (all orderings) + long names (runs of 7..26, 30, 36, "
+                    "40 equal accidentals and mixed long ones)" % n,
+            "exhaustive_upto": n, "cases": [(x,) for x in all_names(n) + long_names(tier)]}
 
 
 @battery("strings")
 def b_strings(tier, rnd):
     n = bound(tier, 6, 9)
-    cases = [(x,) for x in all_names(n)] + [(g,) for g in GARBAGE]
+    cases = [(x,) for x in all_names(n) + long_names(tier)] + [(g,) for g in GARBAGE]
+    # every name with <= 2 accidentals wrapped in / followed by characters that text-level shortcuts mishandle
+    for x in all_names(2):
+        for suf in ("\n", " ", "\t", "\r\n", "\x00", "\u266f", "B", "-4", "#\n"):
+            cases.append((x + suf,))
+        for pre in ("\n", " ", "\t"):
+            cases.append((pre + x,))
     # garbage mutations of valid names: one foreign character at every position
     for x in all_names(3):
         for pos in range(len(x) + 1):
             for ch in "xB-1 ":
                 cases.append((x[:pos] + ch + x[pos:],))
-    return {"rule": "names as in 'names' (length <= %d) + %d malformed strings + every single-character "
-                    "insertion of x/B/-/1/space into names of <= 3 accidentals" % (n, len(GARBAGE)),
+    return {"rule": "names as in 'names' (length <= %d, + long ones) + %d malformed strings + every single-character "
+                    "insertion of x/B/-/1/space into names of <= 3 accidentals + names of <= 2 accidentals followed or "
+                    "preceded by newline/space/tab/NUL/non-ASCII/extra letters" % (n, len(GARBAGE)),
             "exhaustive_upto": n, "cases": cases}
 
 
